@@ -39,3 +39,5 @@ def run(ctx):
     from . import helpers_rules as H_
     H_.r14_3_positions(ctx)
     R3.r14_14_exact_key_match(ctx, 'R13.9')
+    from . import memo_rules as M
+    M.memo_sound(ctx, 'R13.M')
